@@ -200,7 +200,7 @@ fn @name@() {
         # (last, 2, row 3) = [-long] on a final long segment exhausted 14 GB and is left to the concrete-bundle table family
         menu = {("first", 1): [1], ("first", 2): [3], ("first", 3): [6], ("middle", 1): [1, 3, 4], ("middle", 2): [3, 2, 8], ("middle", 3): [6, 2, 8], ("last", 1): [1], ("last", 3): [6]}
         if tier == "thorough":
-            rows = [r for r in range(9) if r != 7 and not (p == "last" and L == 2 and r == 3)]
+            rows = menu.get((p, L), [])        # the whole menu; rows outside it were not all measured (one exhausted 14 GB)
         else:
             rows = [r for i, r in enumerate(menu.get((p, L), [])) if (i + seed + L) % 2 == 0]
         for k in rows:
@@ -281,6 +281,62 @@ fn @name@() {
     std::mem::forget(alphas); std::mem::forget(sy);
 }
 """, name=nm, mst=mst, mln=mln, mtone=mtone, el=el, es=es, et=et), functions=["Syllable::apply_supras", "Syllable::apply_syll_mods"], symbolic="bundles, stress, tones", shape="[x a a y], output matrix " + tag, unwind=8, stubs=STUBS, weight=2))
+
+    # ------------------------------------------------------------------ length modifiers on an IPA *input* element
+    # `a:[-long]` etc. in the input of a rule: SubRule::input_match_ipa -> match_ipa_with_modifiers (the IPA's own features
+    # joined with the modifiers) -> match_modifiers -> match_supr_mod_seg; whatever the outcome, the cursor must be left
+    # on the LAST copy of the run (the caller steps once more), and a capture is recorded iff the element matched.
+    # The rule's segment is concrete (all 26 + 8 slots of the joined matrix are then concrete, R1); the neighbours are symbolic.
+    HDRA = HDR.replace("unwind(8)", "unwind(%d)" % (facts["ftype_count"] + 2))
+    ipa_shapes = [(L, k) for L in (1, 2, 3) for k in range(4)] if tier == "thorough" else [[(3, 0), (2, 3)], [(3, 2), (1, 1)]][seed % 2]
+    for (L, k) in ipa_shapes:
+        la, lb = [("Some(false)", "None"), ("Some(true)", "None"), ("None", "Some(false)"), ("None", "Some(true)")][k]
+        arr = ["[bin(false), None]", "[bin(true), None]", "[None, bin(false)]", "[None, bin(true)]"][k]
+        tag = ["minus_long", "plus_long", "minus_overlong", "plus_overlong"][k]
+        nm = "c05_input_ipa_%d_%s" % (L, tag)
+        h = G.H(nm, "input-ipa-length", "subrule", G.T(HDRA + """
+fn @name@() {
+    let a = cseg(1, 0x90, 4, Some(0x2340));
+    let x = any_seg(); let y = any_seg();
+    kani::assume(a != x && a != y);
+    let st = any_stress(); let tone: u16 = kani::any();
+    let w = word1(syll_of(&[@segs@], st, tone));
+    let sub = mk_sub(RuleType::Substitution);
+    let mut caps: Vec<MatchElement> = Vec::new();
+    let mut pos = SegPos::new(0, 1);
+    let mut m = mods_new();
+    m.suprs.length = @arr@;
+    let r = sub.input_match_ipa(&mut caps, &a, &Some(m), &w, &mut pos, P);
+    let exp = ref_match_length(@L@, @la@, @lb@);
+    match r { Ok(v) => assert!(v == exp, "role=input-ipa-length-table"), Err(_) => assert!(false, "role=unexpected-error") }
+    assert!(pos == SegPos::new(0, @L@), "role=cursor-on-last-copy-of-run");
+    assert!(caps.len() == if exp { 1 } else { 0 }, "role=capture-recorded-iff-matched");
+    kani::cover!(true);
+    std::mem::forget(sub); std::mem::forget(w); std::mem::forget(caps);
+}
+""", name=nm, segs=", ".join(["x"] + ["a"] * L + ["y"]), arr=arr, L=L, la=la, lb=lb), shared=[G.SUBRULE_SHARED, CSEG],
+            functions=["SubRule::input_match_ipa", "SubRule::match_ipa_with_modifiers", "Segment::as_modifiers", "SubRule::match_modifiers", "SubRule::match_supr_mod_seg", "SubRule::match_seg_length", "Word::seg_length_at"],
+            symbolic="neighbour bundles x, y (!= a), stress, tone; the rule's segment a is concrete", shape="[x a*%d y], input element a:[%s]" % (L, tag.replace("_", " ")), unwind=facts["ftype_count"] + 2, stubs=STUBS, weight=3)
+        h["array_loops"] = True       # Segment::as_modifiers really runs core::array::from_fn over the 26 feature slots
+        hs.append(h)
+    hs.append(G.H("c05_input_ipa_plain_3", "input-ipa-length", "subrule", G.T(HDR + """
+fn c05_input_ipa_plain_3() {
+    // unmodified IPA input element met at an overlong run: bit equality decides, the cursor ends on the last copy
+    let a = any_seg(); let c = any_seg();
+    let x = any_seg(); let y = any_seg();
+    kani::assume(a != x && a != y);
+    let w = word1(syll_of(&[x, a, a, a, y], any_stress(), kani::any()));
+    let sub = mk_sub(RuleType::Substitution);
+    let mut caps: Vec<MatchElement> = Vec::new();
+    let mut pos = SegPos::new(0, 1);
+    let r = sub.input_match_ipa(&mut caps, &c, &None, &w, &mut pos, P);
+    match r { Ok(v) => assert!(v == (c == a), "role=input-ipa-bit-equality"), Err(_) => assert!(false, "role=unexpected-error") }
+    assert!(pos == SegPos::new(0, 3), "role=cursor-on-last-copy-of-run");
+    assert!(caps.len() == if c == a { 1 } else { 0 }, "role=capture-recorded-iff-matched");
+    kani::cover!(c == a); kani::cover!(c != a);
+    std::mem::forget(sub); std::mem::forget(w); std::mem::forget(caps);
+}
+"""), shared=[G.SUBRULE_SHARED], functions=["SubRule::input_match_ipa", "Word::seg_length_at"], symbolic="4 bundles (2^160), stress, tone", shape="[x a a a y], input element c", unwind=8, stubs=STUBS, weight=2))
 
     # ------------------------------------------------------------------ replace_segment / insert_segment
     for L in ((1, 2, 3) if tier == "thorough" else (2, 3)):
